@@ -15,7 +15,8 @@ import plan  # noqa: E402
 
 REPO = os.environ.get('VERIF_REPO_ROOT', '/repo')
 SRC = os.path.join(REPO, 'src')
-BUILD = os.path.join(ROOT, 'build')
+BUILD = os.environ.get('VERIF_BUILD_DIR', os.path.join(ROOT, 'build'))  # scratch evaluations of seeded changes build elsewhere
+ENGINE_BUILD = os.path.join(ROOT, 'build', 'engine')
 CXX = os.environ.get('CXX', 'g++')
 
 VRT_FLAGS = ['-std=c++20', '-O1', '-g', '-fno-omit-frame-pointer', '-fsanitize=thread', '-DNDEBUG', '-D_GLIBCXX_ASSERTIONS',
@@ -83,9 +84,9 @@ def build_tu(tu, kind):
         log(f'BUILD FAILED {src}\n' + r.stderr[-6000:])
         raise SystemExit(2)
     if kind == 'vrt':
-        link = [CXX, '-no-pie', obj, os.path.join(BUILD, 'engine/rt.o'), '-o', exe, '-lpthread']
+        link = [CXX, '-no-pie', obj, os.path.join(ENGINE_BUILD, 'rt.o'), '-o', exe, '-lpthread']
     else:
-        link = [CXX, '-fsanitize=address,undefined', obj, os.path.join(BUILD, 'engine/seq_backend.o'), '-o', exe, '-lpthread']
+        link = [CXX, '-fsanitize=address,undefined', obj, os.path.join(ENGINE_BUILD, 'seq_backend.o'), '-o', exe, '-lpthread']
     r = sh(link)
     if r.returncode:
         log(f'LINK FAILED {exe}\n' + r.stderr[-6000:])
